@@ -63,10 +63,15 @@ def mergeFrom (s o : Scope) : Scope :=
            deleted := s.deleted.union o.deleted, annotations := s.annotations.union o.annotations,
            params := o.params ++ s.params.filter (fun p => !(o.params.map (·.1)).contains p.1) }
 
+/-- What an isolated scope passes on to its parent's `read` set when it is finalized: what it reads and does not
+    bind — where names declared nonlocal/global, although in `bound`, denote a variable of an enclosing scope
+    (reading them reads that variable), so they are passed on. -/
+def passedOn (c : Scope) : QSet := c.read.diff ((c.bound.diff c.nonlocals).diff c.globals)
+
 /-- The effect of `child.finalize()` on its parent. -/
 def finalizeInto (c p : Scope) : Scope :=
   if c.isolated then
-    { p with read := p.read.union (c.read.diff c.bound),
+    { p with read := p.read.union c.passedOn,
              annotations := p.annotations.union (c.annotations.diff c.bound) }
   else
     { p with read := p.read.union (c.read.diff c.isolatedNames),
